@@ -67,6 +67,7 @@ FIXED = [
  ("C02", "fix: Find Information answers Attribute Not Found", "04 0400 0400 inside a gap answered 05 01 (empty-data-response:find-information:no-match)"),
  ("C02", "fix: Read By Type finds characteristic values by their 128", "Read By Type with a 128 bit UUID never matched (not-found-although-match:read-by-type:type128)"),
  ("C02", "fix: automatically generated characteristic UUIDs", "auto UUID characteristic reported the service UUID (type-mismatch:find-information:auto-uuid-characteristic; C04 char-decl:wrong-uuid:auto-uuid-characteristic)"),
+ ("C02", "fix: Read By Type and Find By Type Value responses longer", "Read By Type 08 0400 0700 102a at MTU 512 returned 256 octets with pair length 255: collect_attributes::size() was 8 bit (malformed-response:read-by-type:partial-entry)"),
  ("C03", "fix: primary service discovery does not report secondary", "10 0100 ffff 0028 reported a secondary service (rbgt-returns-secondary, fbtv-returns-secondary)"),
  ("C04", "fix: attribute handles of a service with include", "service with include_service<>: last attributes got handle 0 (handle-by-index:mismatch:service-with-include and all *:cfg-with-include / *-with-include signatures of C02/C03)"),
  ("C17", "fix: a new PDU with a failing MIC is not acknowledged", "new data PDU with MIC error answered with advanced NESN (nesn-advanced-on-mic-failure:new-pdu)"),
